@@ -81,7 +81,12 @@ def _cmp(ctx, world, a, b, name):
     True / False, or a text describing how it ended."""
     fm = ctx.mod('xlfunctions.func_xltypes')
     it = Interp(ctx.a, fm, {'a': a, 'b': b}, inline_pkg=True, world=world)
-    out = it.run([ast.parse(f'return a {_SYMS[name]} b').body[0]])
+    try:
+        out = it.run([ast.parse(f'return a {_SYMS[name]} b').body[0]])
+    except Unmodelled as exc:
+        if 'inlining deeper than' in str(exc):
+            return '<the comparison calls itself without end (RecursionError)>'
+        raise
     if out.end == 'return' and isinstance(out.value, Rec) and out.value.f.get('cls') == XLT + 'Boolean':
         return out.value.f.get('value')
     if out.end == 'return' and isinstance(out.value, bool):
